@@ -13,7 +13,12 @@ import tempfile
 import time
 
 HERE = os.path.dirname(os.path.dirname(os.path.abspath(__file__)))
-only = set(sys.argv[1:])
+args = sys.argv[1:]
+seeds = ['11']
+if args and args[0] == '--seeds':
+    seeds = args[1].split(',')
+    args = args[2:]
+only = set(args)
 results = []
 for name in sorted(os.listdir(os.path.join(HERE, 'seeded'))):
     d = os.path.join(HERE, 'seeded', name)
@@ -31,22 +36,27 @@ for name in sorted(os.listdir(os.path.join(HERE, 'seeded'))):
             print(f'{name}: patch does not apply: {pr.stdout} {pr.stderr}')
             results.append({'seeded': name, 'error': 'patch'})
             continue
-        for pid in pids:
+        for pid, sd in [(p_, s_) for p_ in pids for s_ in seeds]:
             t0 = time.time()
-            env = dict(os.environ, VERIF_REPO=root, VERIF_SEED='11')
+            env = dict(os.environ, VERIF_REPO=root, VERIF_SEED=sd)
             r = subprocess.run([os.path.join(HERE, 'check'), pid], env=env,
                                capture_output=True, text=True, cwd=HERE)
             caught = r.returncode == 1 and 'VIOLATION' in r.stdout
             first = next((x for x in r.stdout.splitlines()
                           if x.startswith('  clause=')), '')
-            results.append({'seeded': name, 'property': pid,
+            nviol = next((x.split('violations=')[1].split(',')[0]
+                          for x in r.stdout.splitlines()
+                          if 'violations=' in x), '?')
+            results.append({'seeded': name, 'property': pid, 'seed': sd,
+                            'violating_cases': nviol,
                             'caught': caught, 'exit': r.returncode,
                             'wall_s': round(time.time() - t0, 1),
                             'first': first[:200]})
             tag = 'CAUGHT' if caught else 'MISSED exit=%d' % r.returncode
             if not caught and meta.get('expected_caught') is False:
                 tag = 'NOT CAUGHT (by decision, see meta.json)'
-            print(f'{name:45s} {pid} {tag} {first[:100]}', flush=True)
+            print(f'{name:45s} {pid} seed={sd} cases={nviol} {tag} '
+                  f'{first[:90]}', flush=True)
     finally:
         shutil.rmtree(root, ignore_errors=True)
 with open(os.path.join(HERE, 'evidence', 'selftest_seeded.json'), 'w') as f:
